@@ -26,6 +26,8 @@ INF == MaxT + 1000
 (*  select a b (biased) | reset a b | polldrop a | ivlnew a(period) m(mode) *)
 (*  tick | send a(ch) | recv a(ch) | sendself a(delay): a message to the    *)
 (*  module that its handler forwards into channel 0 | restart a(delay)      *)
+(*  panic: the task panics; tokio confines the panic to the task (C13): it *)
+(*  never runs again, everything else is unaffected                         *)
 
 VARIABLES now, prog, pc, st, dl, dl2, ivl, q, inc, obs, amb, pendSelf, shut, done,
           tmo   \* channels on which a timed receive elapsed at the current instant (to recognise ties)
@@ -110,6 +112,9 @@ RunStep ==
             /\ pendSelf' = pendSelf \cup {now + s.a}
             /\ amb' = (amb \/ (now + s.a) \in pendSelf)       \* two self messages for one instant: keep scenarios simple
             /\ Complete(t, "ok") /\ UNCHANGED <<ivl, q, shut>>
+       [] s.k = "panic" ->
+            /\ obs' = Log(t, "panic") /\ st' = [st EXCEPT ![t] = "dead"]
+            /\ UNCHANGED <<pc, dl, dl2, ivl, q, amb, pendSelf, shut>>
        [] s.k = "restart" ->
             /\ shut' = IF inc = 1 THEN now + s.a ELSE shut      \* only the first incarnation restarts the module
             /\ Complete(t, "ok") /\ UNCHANGED <<ivl, q, amb, pendSelf>>
@@ -175,7 +180,9 @@ Next == RunStep \/ WakeRecv \/ DoShutdown \/ Advance \/ End
 Spec == Init /\ [][Next]_avars
 
 -----------------------------------------------------------------------------
-Unfinished == {t \in Tasks : ~Finished(t)}
+Panicked == {t \in Tasks : st[t] = "dead"}
+(* a panicked task counts as finished for its join handle (it resolves to a panic error) *)
+Unfinished == {t \in Tasks : ~Finished(t) /\ st[t] # "dead"}
 (* C06: time never advances while a task is runnable *)
 NoAdvanceWhileRunnable == [][now' # now => Quiet]_avars
 (* C05: a completed timer await is logged exactly at its deadline (by construction of Advance); never early *)
